@@ -59,6 +59,16 @@ Proof.
     intros H1 H2; inversion H1; inversion H2; subst; cbn [hs_las hs_wrap]; split; reflexivity.
 Qed.
 
+(* the file in memory after the call is the one the written form hs carries *)
+Lemma written_state_is_hs_las o m text m' hs :
+  write fmtv fmt_diff fmt_pi fstr fzero numeq o m = WOk text m' ->
+  write_sections fmtv fmt_diff fstr fzero numeq (wo_version o) (wo_wrap o) (col_fmt o 0%nat) m = Some hs ->
+  m' = mkmlas (hs_las hs) (m_index_initial m).
+Proof.
+  intros Hw Hs. destruct (write_ok_inv fmtv fmt_diff fmt_pi fstr fzero numeq o m text m' Hw) as (hs0 & d & Hs0 & _ & _ & ->).
+  rewrite Hs in Hs0. injection Hs0 as <-. reflexivity.
+Qed.
+
 (* C12 at file level *)
 Theorem file_version_independent ro o m v1 v2 t1 m1 t2 m2 hs1 hs2 dl1 dl2 rts1 rts2 nt :
   let o1 := set_wversion o (Some v1) in
